@@ -149,6 +149,13 @@ class Deflater:
     def _new(self):
         return zlib.compressobj(self.level, zlib.DEFLATED, -self.wbits, self.mem_level)
 
+    def snapshot(self):
+        """LZ77 context as of now (to undo a compress_message whose output is not sent after all)."""
+        return self._z.copy() if self._z is not None else None
+
+    def restore(self, snap):
+        self._z = snap
+
     def compress_message(self, data: bytes, flush=None) -> bytes:
         """1. compress the whole message with DEFLATE; 2. end with an empty stored block (sync/full
         flush); 3. remove the trailing 0x00 0x00 0xff 0xff."""
@@ -339,9 +346,13 @@ class Decoder:
     strict_minimal: non-minimal length encodings are an error (5.2 "minimal number of bytes MUST be used")
     """
 
-    def __init__(self, expect_masked=None, inflater=None, max_message=None, strict_minimal=True):
+    def __init__(self, expect_masked=None, inflater=None, max_message=None, strict_minimal=True,
+                 control_after_close_ok=False):
         self.expect_masked, self.inflater, self.max_message = expect_masked, inflater, max_message
         self.strict_minimal = strict_minimal
+        # RFC 6455 5.5.1 only forbids *data* frames after a Close frame; with this flag ping/pong frames
+        # after it are decoded (a second Close frame or a data frame is still an error)
+        self.control_after_close_ok = control_after_close_ok
         self.buf = bytearray()
         self.pos = 0  # absolute offset of buf[0]
         self.frames = []
@@ -472,8 +483,10 @@ class Decoder:
         if self.closed:
             # 5.5.1: after sending a Close frame an endpoint MUST NOT send any more data frames
             # (and nothing at all is expected after it)
-            self._fail("frame_after_close", idx)
-            return
+            if not (self.control_after_close_ok and fr.opcode in (OP_PING, OP_PONG)):
+                self._fail("second_close_frame" if fr.opcode == OP_CLOSE else
+                           ("frame_after_close" if fr.opcode in (OP_PING, OP_PONG) else "data_frame_after_close"), idx)
+                return
         op = fr.opcode
         if op == OP_PING:
             self._emit(("ping", fr.payload), idx)
